@@ -556,3 +556,18 @@ Proof.
     cbv iota. rewrite andthen_ok_id, for_each_pop. f_equal. f_equal.
     generalize (ctx s). generalize (kv :: d). intros l. induction l as [|x l IH]; intros c; simpl; auto.
 Qed.
+
+(** * Closed form: the engine at fuel [S f] is the generated ladder over the engine at fuel [f] —
+    no hypothesis on nested behaviours is left (the balanced-stack invariant is proved by
+    induction on fuel in EngineProofs) *)
+Lemma gen_engine_closed fuel lib names groups success failure s :
+  names_of groups = Some names ->
+  gen_run_step_groups (run_step (run_groups fuel lib) (run_pipe fuel lib)) (run_groups fuel lib)
+                      (pipeline_of lib s) names success failure s
+  = run_groups (S fuel) lib groups success failure s.
+Proof.
+  intros Hn. cbn [run_groups].
+  apply (gen_run_step_groups_is_model lib (run_groups fuel lib) (run_pipe fuel lib)); [| |exact Hn].
+  - apply good_run_groups.
+  - intros n pr gs su fa. apply (proj2 (good_run_groups_pipe fuel lib)).
+Qed.
